@@ -350,6 +350,17 @@ def run(ck):
     ck.rule("C16-ALONE", ".lzma header layout and picky-only heuristics; auto SEQ_FINISH rules")
     evaluate(ck, prog, "C16-ALONE", TABLE)
     check_alone_fields(ck, prog)
+    # re-use and re-entry of the .lzma / .lz / auto decoders
+    from . import reinit
+    FILES = {"auto_decoder.c", "alone_decoder.c", "lzip_decoder.c", "microlzma_decoder.c"}
+    ck.rule("C16-INITONCE", "the format-specific decoder is initialised once: coder->sequence is advanced before any "
+                            "non-fatal return (LZMA_NO_CHECK / LZMA_GET_CHECK included)")
+    reinit.check_init_once(ck, prog, "C16-INITONCE", files=FILES)
+    ck.floor("C16-INITONCE", 5)
+    ck.rule("C16-INITCONS", "a re-used .lzma/.lz/auto decoder starts like a fresh one: members initialised on some init "
+                            "paths are initialised on all")
+    reinit.check_init_consistency(ck, prog, "C16-INITCONS", files=FILES)
+    ck.floor("C16-INITCONS", 8)
     ck.floor("C16-ALONE", 8)
     prog_xz = common.program(ck, ("xz",), files=("/coder.c",))
     check_xz_magic(ck, prog, prog_xz)
